@@ -64,6 +64,7 @@ pub struct ZarrTraceStorage {
     param_types: Vec<(String, ItemType)>,
     draw_types: Vec<(String, ItemType)>,
     event_dim_of_stat: HashMap<String, String>,
+    store_warmup: bool,
 }
 
 /// Per-chain storage for Zarr MCMC traces
@@ -75,6 +76,7 @@ pub struct ZarrChainStorage {
     last_sample_was_warmup: bool,
     event_dim_of_stat: HashMap<String, String>,
     warmup_event_counts: HashMap<String, u64>,
+    store_warmup: bool,
 }
 
 /// Write a chunk of data to a Zarr array
@@ -163,6 +165,7 @@ impl ZarrChainStorage {
         buffer_size: u64,
         chain: u64,
         event_dim_of_stat: HashMap<String, String>,
+        store_warmup: bool,
     ) -> Self {
         let draw_buffers = draw_types
             .iter()
@@ -181,6 +184,7 @@ impl ZarrChainStorage {
             last_sample_was_warmup: true,
             event_dim_of_stat,
             warmup_event_counts: HashMap::new(),
+            store_warmup,
         }
     }
 
@@ -270,6 +274,9 @@ impl ChainStorage for ZarrChainStorage {
         draws: Vec<(&str, Option<Value>)>,
         info: &Progress,
     ) -> Result<()> {
+        if info.tuning && !self.store_warmup {
+            return Ok(());
+        }
         let is_first_draw = self.last_sample_was_warmup && !info.tuning;
         if is_first_draw {
             self.warmup_event_counts = self.event_counts();
@@ -469,6 +476,7 @@ impl StorageConfig for ZarrConfig {
         }
         let store = self.store;
         let draw_chunk_size = self.draw_chunk_size;
+        let store_warmup = self.store_warmup;
 
         let mut root = GroupBuilder::new().build(store.clone(), &group_path)?;
 
@@ -597,6 +605,7 @@ impl StorageConfig for ZarrConfig {
             draw_types,
             draw_chunk_size,
             event_dim_of_stat,
+            store_warmup,
         })
     }
 }
@@ -614,6 +623,7 @@ impl TraceStorage for ZarrTraceStorage {
             self.draw_chunk_size,
             chain_id as _,
             self.event_dim_of_stat.clone(),
+            self.store_warmup,
         ))
     }
 
